@@ -25,13 +25,25 @@ MANIFEST = {
                   "first-sample-flags), C06_sizes_agree. Whole files by induction over the fragment list: C06_file_roundtrip_cenc and C06_file_roundtrip_cbcs. Init: "
                   "DecryptInit(InitProtect init) = init and C06_init_restore_all for every number of tracks and entries with arbitrary entry children - no guard on "
                   "sinf boxes the entry owns (RemoveEncryption repaired: fix bb3f974); in BYTES: C06_sinf_codec (frma/schm/schi/tenc/sinf parse(encode) = id) and "
-                  "C06_entry_bytes_roundtrip (decode + RemoveEncryption + Encode of the protected sample entry = the bytes of the clear entry, 4cc and size included). "
-                  "Third-party cenc fragments keep sample count/sizes, offsets shift by the removed bytes. Explored, not proved: that the Go code behaves like the "
-                  "model (correspondence), sidx (known finding C06-F3), absolute tfhd base_data_offset (C06-F2), the fixed fields of sample entries and children "
-                  "other than sinf (opaque bytes assumed to re-encode to themselves: property C01).",
+                  "C06_entry_bytes_roundtrip: with the fixed fields of the Visual / Audio sample entry as TYPED fields (C06_entry_fixed_fields: data_reference_index, "
+                  "width, height, resolutions, frame_count, compressor name / channelcount, samplesize, samplerate decode(encode v) = v; C06_entry_fixed_stable: for ANY "
+                  "78 / 28 input bytes the re-encoding keeps the typed fields and is a fixed point), children with 8- or 16-byte headers and the sinf at ANY position "
+                  "among them (children before AND after it), decode + RemoveEncryption + Encode gives the clear entry and EVERY byte except the size field, the 4cc and "
+                  "the sinf child is identical (C06_entry_typed_roundtrip for arbitrary third-party fixed bytes). Multi-track fragments (C06MultiModel.v: k trafs x m "
+                  "truns, protected / clear / unknown tracks side by side, pssh boxes anywhere in the moof, int32 data offsets, uint64 mdat position, Box.Size() incl. "
+                  "16-byte headers): C06_decrypt_preserves_offsets (ANY fragment on which DecryptFragment succeeds, third-party content included: one number `removed` = "
+                  "moof shrink = protection boxes of all protected trafs + all pssh; the box tree is the clear tree; EVERY data offset of EVERY trun of EVERY traf and "
+                  "the mdat position move by exactly `removed`, exact within int32 / uint64), C06_pssh_undercount_refuted (not counting the pssh bytes moves the offsets "
+                  "by too little), C06_fragment_roundtrip_multi (the protected layout - protection boxes and pssh at any position, truns interleaved in the mdat, cenc "
+                  "and cbcs per track - decrypts to the clear layout: same payload positions, every sample byte of every traf restored), C06_clear_tree_clean. "
+                  "Explored, not proved: that the Go code behaves like the model (correspondence), sidx (known finding C06-F3), absolute tfhd base_data_offset (C06-F2), "
+                  "children of sample entries other than sinf (opaque bytes assumed to re-encode to themselves: property C01), EncryptFragment itself on more than one "
+                  "traf / trun (it refuses them: multi-track inputs are packaged third-party style from per-track EncryptFragment output).",
     "level_note": "Trusted: Coq kernel, extraction, OCaml/Go glue. Modelled, not verified: crypto/aes, cipher CTR/CBC, box "
                   "(de)serialisation other than senc/saiz/saio, the trun sample table and sinf/frma/schm/schi/tenc (other boxes are opaque kind/size/identity triples or opaque bytes), "
-                  "16-byte box headers, the laxness of the io.Reader container decoder (a child larger than its parent is read to EOF: the model rejects it). "
+                  "16-byte headers on box types the library knows (it re-encodes them with an 8-byte header: only unknown boxes keep theirs, and those are modelled), "
+                  "multi-track model domain: distinct track ids per moof and a trex for every protected track (Fragment.GetFullSamples(nil) reads the FIRST traf), "
+                  "the laxness of the io.Reader container decoder (a child larger than its parent is read to EOF: the model rejects it). "
                   "A clear input that already carries a seig sample group is protection-signalled input outside the property's 'clear track' (a seig that "
                   "contradicts the tenc InitProtect writes makes ParseReadSenc misread the senc: witness in reports/C06.md); the search feeds seig groups that agree "
                   "with the tenc and lets decrypt keep or drop them.",
@@ -53,11 +65,14 @@ def run(ctx):
         "model: coq/c06/C06SencModel.v (SencBox.Encode/calcSize, DecodeSenc, ParseReadBox, parseAndFillSamples, ParseReadSenc, saiz/saio encode), "
         "C06TrexModel.v (GetFullSamples size resolution trun/tfhd/trex, files), C06TimingModel.v (AddSampleDefaultValues, trun sample table encode/decode, decode times), "
         "C06SinfModel.v (frma/schm/schi/tenc/sinf bytes, sample entry bytes, container walk), C06EntryModel.v + C06InitModel.v (InitProtect/DecryptInit), "
+        "C06MultiModel.v (DecryptFragment on k trafs x m truns: findTrackInfo, ContainsSencBox, RemovePsshs, int32 / uint64 shifts), C06FixedModel.v (typed fixed fields of the "
+        "Visual / Audio sample entry, children with 16-byte headers, RemoveEncryption's name check), "
         "coq/c06/C06Model.v (decryptSamplesInPlace, TrafBox.RemoveEncryptionBoxes after the fix commit, MoofBox.RemovePsshs, "
         "DecryptFragment offset arithmetic, EncryptFragment's box additions, SetTrunDataOffsets) + coq/c07/C07Model.v (sample crypt)",
         "coq/c07/C07Aes.v AES-128 (encrypt + decrypt) validated against FIPS-197 vectors, used only in the correspondence",
     ]
-    ctx.assumptions += ["one traf / one trun per fragment on the encrypt side (EncryptFragment rejects anything else)",
+    ctx.assumptions += ["one traf / one trun per fragment on the encrypt side (EncryptFragment rejects anything else); multi-track / multi-trun theorems: any packager that runs "
+                        "EncryptFragment's per-sample loop per traf (enc_children), distinct track ids in a moof, a trex per protected track, data offsets within int32, positions within uint64",
                         "cbcs inverse: E, D map to 16-byte blocks and D k (E k b) = b for 16-byte b; sub-sample map fits the sample (< 2^32 bytes)",
                         "clear input fragments carry no pssh/saiz/saio/senc boxes of their own",
                         "fragment theorems: default-base-is-moof addressing (an absolute tfhd base_data_offset is known finding C06-F2)",
@@ -66,7 +81,8 @@ def run(ctx):
                         "trex / file theorems: the decrypt side resolves sample sizes with the same trex as the encrypt side; cenc (cbcs: generic theorem with a length hypothesis)",
                         "cbcs file / trex theorems: samples (mdat payload) below 4 GiB, sub-sample maps inside their sample",
                         "timing: one trun per traf; the trun is what a decoder delivers (absent fields zero, fields < 2^32)",
-                        "entry bytes: child boxes of the sample entry other than sinf re-encode to the bytes they were decoded from (C01), compact box headers",
+                        "entry bytes: child boxes of the sample entry other than sinf re-encode to the bytes they were decoded from (C01); 16-byte headers only on unknown children; "
+                        "no further sinf behind the one that is removed (RemoveEncryption takes the LAST)",
                         "a clear input carrying a seig sample group that contradicts the tenc InitProtect writes is outside the property (protection signalling in the input)"]
     exe, model = build(ctx)
     pr = ctx.proofs("c06", "C06Theorems.v")
@@ -103,6 +119,8 @@ def run(ctx):
                         "U sample flags/duration/size/cto/decode time from GetFullSamples with the file's trex and with nil (values in trun, tfhd, only in trex, first-sample-flags), the trun bytes Encode writes AFTER the defaults were filled into trun.Samples, and that box decoded again; "
                         "V trun bodies of all 64 flag combinations, damaged (wrong/huge counts, truncated, extended); "
                         "W the sample entry bytes (found by walking) of the clear init (AVC/HEVC/AAC + btrt/pasp/unknown/sinf-like/free children, own sinf), after InitProtect+Encode, after DecodeFile+DecryptInit+Encode, and the sinf DecryptInit returns; "
+                        "H DecryptFragment on multi-track / multi-trun fragments assembled third-party style (1-3 tracks AVC/HEVC/audio, cenc/cbcs/clear per track, each protected by InitProtect+EncryptFragment then split in 1-3 truns, trafs in any order, saiz/saio/senc and 0-2 pssh at any position, unknown boxes with 16-byte headers in traf and moof, clear tracks with saiz/saio of their own, truns interleaved in the mdat, 8/16-byte mdat header, bytes in front of the moof; malformed: senc/saiz/saio/pssh renamed, a traf of a track the init does not know): children, every trun data offset, sample bytes per traf, mdat position; "
+                        "Y sample entries written from the syntax (any bytes in reserved/pre_defined positions, any depth, compressor-name length 0..31 and above, fractional sample rate; children before and after the sinf incl. unknown children with 16-byte headers; several sinf boxes, sinf without frma / without tenc, an entry not called encv/enca; cut short / damaged): DecodeBox + RemoveEncryption + Encode bytes and the returned sinf; "
                         "X sinf boxes written from the syntax: tenc versions 0/1/2, crypt:skip, isProtected 0/1/2, IV sizes 0/8/16, constant IVs, schm with URI, missing/duplicate/reordered/unknown children, short tenc/schm/frma, child size below 8",
     }
     ctx.cov["samples"] += [l[:300] for l in lines[10:12]] + [l[:300] for l in lines[n + 5:n + 7]] + [l[:300] for l in lines[-2:]]
@@ -158,8 +176,8 @@ def run(ctx):
     ctx.cov["rule"] = ("corr: %d case lines (kinds %s), distinct = distinct case lines; search: %d synthetic clear tracks (AVC/HEVC NALU "
                        "size mixes around 1,15-17,107-128,65535+-1, audio; cenc/cbcs; 8/16-byte IVs incl. ff..ff; extra uuid/unknown/free "
                        "boxes in moof/traf, optional pssh in moof) through InitProtect/EncryptFragment -> encode -> decode -> DecryptInit/DecryptFragment -> encode, "
-                       "byte comparison with the clear file (then per-clause diagnosis: full child lists, type + bytes, of moov/trak/mdia/minf/stbl/stsd/sample entries/moof/traf found by walking both files); %d whole files built like mp4ff-encrypt/-decrypt process them (1-4 fragments, styp, 0-2 pssh in moov, tfhd base_data_offset variants; every second file against a non-trivial trex with sample size/duration/flags per fragment in trun, in tfhd defaults or only in trex + first-sample-flags), the intermediate encrypted file checked sample by sample against a reference AES-CTR / AES-CBC-pattern encryption (crypto/aes only) under the senc entry, whose sub-sample map must be the protection ranges of the clear sample, and sample flags/dur/size/cto/decode time of the encrypted file = clear file; init segments whose entry owns a sinf / holds two sinf boxes (DecryptInit must remove the sinf it returns); 5 third-party encrypted files: sizes/timing kept"
-                       % (len(lines), kinds, ns, ns // 2))
+                       "byte comparison with the clear file (then per-clause diagnosis: full child lists, type + bytes, of moov/trak/mdia/minf/stbl/stsd/sample entries/moof/traf found by walking both files); %d whole files built like mp4ff-encrypt/-decrypt process them (1-4 fragments, styp, 0-2 pssh in moov, tfhd base_data_offset variants; every second file against a non-trivial trex with sample size/duration/flags per fragment in trun, in tfhd defaults or only in trex + first-sample-flags), the intermediate encrypted file checked sample by sample against a reference AES-CTR / AES-CBC-pattern encryption (crypto/aes only) under the senc entry, whose sub-sample map must be the protection ranges of the clear sample, and sample flags/dur/size/cto/decode time of the encrypted file = clear file; init segments whose entry owns a sinf / holds two sinf boxes (DecryptInit must remove the sinf it returns); 5 third-party encrypted files: sizes/timing kept; %d multi-track / multi-trun protected fragments assembled third-party style (see H): every trun data offset after DecryptFragment = clear layout, sample bytes per track, Fragment.Encode of the decrypted fragment = the clear fragment assembled the same way byte for byte; %d protected sample entries from the syntax: RemoveEncryption + Encode = plain decode + encode of the same bytes with the 4cc restored and the last sinf cut out"
+                       % (len(lines), kinds, ns, ns // 2, ns // 2, ns // 2))
 
 
 def replay(ctx, path):
